@@ -248,6 +248,11 @@ def vbool(draw, depth=2, varnames=()):
     if c == 3:
         return ['cmp', ['str', draw(st.sampled_from(TAGS + ['RECURRING', 'nosuch']))], [[draw(st.sampled_from(['in', 'not in'])), ['name', 'tags']]]]
     if c == 4:
+        if draw(st.booleans()):
+            # how the payments fall into weeks / days: sensitive to WHICH payments share a group, not only to how many groups there are
+            g = ['call', 'by', [['str', draw(st.sampled_from(['week', 'week', 'day', 'Week']))]]]
+            return draw(st.sampled_from([['cmp', ['call', 'max', [['call', 'count', [g]]]], [['>=', ['num', 2]]]], ['cmp', ['call', 'count', [g]], [['>=', ['num', draw(st.sampled_from([2, 3, 4]))]]]],
+                                         ['cmp', ['call', 'max', [['call', 'sum', [g]]]], [['>', ['num', draw(st.sampled_from(NUMS))]]]]]))
         return ['lit', draw(st.booleans())]
     if c == 5:
         return draw(st.sampled_from(UNEVALUABLE))
@@ -311,7 +316,7 @@ def render_views(vf):
 
 
 payment = st.tuples(st.one_of(st.integers(-20000, 90000).map(lambda c: c / 100.0), st.sampled_from([50.0, 100.0, 250.5, 1000.0, 9.99, -9.99])),
-                    st.integers(0, 17), st.integers(1, 28)).map(list)
+                    st.integers(0, 17), st.one_of(st.integers(1, 28), st.sampled_from([1, 2, 3, 29, 30, 31]))).map(list)
 
 
 @st.composite
@@ -325,7 +330,11 @@ def merchant_history(draw, idx):
         months = [k, k + 12] + months[:2]
     pays = []
     for _ in range(n):
-        pays.append([draw(payment)[0], draw(st.sampled_from(months)), draw(st.integers(1, 28))])
+        pays.append([draw(payment)[0], draw(st.sampled_from(months)), draw(st.one_of(st.integers(1, 28), st.sampled_from([1, 2, 3, 29, 30, 31])))])
+    if draw(st.integers(0, 5)) == 0:
+        # payments in the first days of January AND the last days of December of one year (2024): different weeks, ~51 weeks apart
+        pays.append([draw(payment)[0], 4, draw(st.integers(1, 5))])
+        pays.append([draw(payment)[0], 15, draw(st.sampled_from([29, 30, 31]))])
     tags = draw(st.lists(st.sampled_from(TAGS), max_size=2))
     special = draw(st.integers(0, 7)) == 0
     # an ordinary tag may come from a tag-only rule that applies to SOME payments only (often not the first): `tags` is the merchant's union
@@ -335,8 +344,9 @@ def merchant_history(draw, idx):
 
 
 def pay_date(mo, day):
+    import calendar
     y, m = divmod(mo + 8, 12)
-    return datetime(2023 + y, m + 1, day)
+    return datetime(2023 + y, m + 1, min(day, calendar.monthrange(2023 + y, m + 1)[1]))
 
 
 def build_txns(merchants):
